@@ -21,9 +21,9 @@ EXECUTION_COUNTERS = ["entries_checked"]   # executions of the oracle inside the
 CONTRACT_GROUPS = ['C10']   # icontract layer (vlib/contracts.py) active inside the workload and in the repository's own tests
 RULE = ("case = one configuration with R x P injected sample vectors; an entry is non-trivial if its raw value x + m*s lies outside the bounds (boundary semantics exercised) "
         "- counted per boundary type; a case is non-trivial if it has such an entry; distinct key = case index")
-ASSUMPTIONS = ["variables inside the bounds; magnitudes positive"]
-REQUIRED = {"quick": {"entries_checked": 32228, "outside.NONE": 800, "outside.TRUNCATE_BOTH": 800, "outside.MIRROR_BOTH": 800, "mirror_single_reflection": 300, "relative_magnitude_entries": 2000, "evaluator_rows_checked": 3000, "with_variable_scaler": 400, "with_section_objects_used_before": 400, "mirror_symmetry_pairs": 600, "__nontrivial__": 400},
-            "thorough": {"entries_checked": 2161249, "outside.NONE": 30000, "outside.TRUNCATE_BOTH": 30000, "outside.MIRROR_BOTH": 30000, "mirror_single_reflection": 10000, "relative_magnitude_entries": 80000, "evaluator_rows_checked": 100000, "with_variable_scaler": 25000, "with_section_objects_used_before": 25000, "mirror_symmetry_pairs": 40000, "__nontrivial__": 15000}}
+ASSUMPTIONS = ["variables inside the bounds"]
+REQUIRED = {"quick": {"entries_checked": 32228, "outside.NONE": 800, "outside.TRUNCATE_BOTH": 800, "outside.MIRROR_BOTH": 800, "mirror_single_reflection": 300, "relative_magnitude_entries": 2000, "evaluator_rows_checked": 3000, "with_variable_scaler": 400, "with_section_objects_used_before": 400, "mirror_symmetry_pairs": 600, "negative_relative_magnitude_variables": 150, "__nontrivial__": 400},
+            "thorough": {"entries_checked": 2161249, "outside.NONE": 30000, "outside.TRUNCATE_BOTH": 30000, "outside.MIRROR_BOTH": 30000, "mirror_single_reflection": 10000, "relative_magnitude_entries": 80000, "evaluator_rows_checked": 100000, "with_variable_scaler": 25000, "with_section_objects_used_before": 25000, "mirror_symmetry_pairs": 40000, "negative_relative_magnitude_variables": 6000, "__nontrivial__": 15000}}
 N = {"quick": 3000, "thorough": 200000}
 NAMES = {1: "NONE", 2: "TRUNCATE_BOTH", 3: "MIRROR_BOTH"}
 
@@ -54,6 +54,12 @@ def run_case(case, obs):
             obs.count("variables_with_coinciding_bounds")
     ptypes = np.where(np.isfinite(lb) & np.isfinite(ub) & (rng.random(V) < 0.5), 2, 1)
     mags = np.where(ptypes == 2, rng.uniform(0.01, 0.5, size=V), 10 ** rng.uniform(-3, 0.5, size=V))
+    if rng.random() < 0.3:
+        # a magnitude is a signed factor of the sample (the configuration accepts negative values, absolute or relative)
+        neg = rng.random(V) < 0.5
+        mags = np.where(neg, -mags, mags)
+        obs.count("negative_magnitude_variables", int(neg.sum()))
+        obs.count("negative_relative_magnitude_variables", int((neg & (ptypes == 2)).sum()))
     btypes = rng.integers(1, 4, size=V)
     U = 1.0
     if rng.random() < 0.25:
